@@ -95,6 +95,18 @@ static void put_heap(FILE *o) {
         }
         fprintf(o, "%s%" PRIu64 "=%u/%s[", i ? " " : "", reg[i].id, h->ref_count, kind);
         for (uint32_t k = 0; k < nk; k++) { if (k) fputc(',', o); put_val(o, kids[k]); }
+        if (reg[i].tag == TAG_HASHMAP) {
+            /* keys and values of every entry are references the map holds */
+            VmHashMap *hm = (VmHashMap *)reg[i].p;
+            int first = 1;
+            for (uint32_t b = 0; hm->buckets && b < hm->bucket_count; b++) {
+                for (VmHMEntry *e = hm->buckets[b]; e; e = e->next) {
+                    if (!first) fputc(',', o);
+                    first = 0;
+                    put_val(o, e->key); fputc(',', o); put_val(o, e->value);
+                }
+            }
+        }
         fputc(']', o);
     }
 }
